@@ -59,6 +59,7 @@ func VH_C16_Flush() {
 		vAssert(n == 0 && err == nil && w.calls == calls, "final Flush is not a no-op")
 	}
 	vAssert(ini.WriteMessage(p) == nil, "cannot start a new record after a complete flush")
+	w.partial = 0 // the writer is healthy from here on
 	n, err = ini.Flush(w)
 	vAssert(err == nil && n == l, "Flush of the following record does not report exactly its plaintext length")
 	vAssert(len(w.log) == 2*(18+l+16), "the following record is not on the wire once")
